@@ -168,6 +168,10 @@ def gen_line_or_scatter(rng, kind, tier):
                 raw["vars"]["cv"] = make_var(rng, ids, raw, perm(rng, active), 0, 0, finite=True)
                 case["c"] = "cv"
     # options
+    if (has_z or multi) and rng.random() < 0.15:
+        # the user's own series labels, one per z value / variable, in order
+        nser = raw["dims"]["z"] if has_z else len(ynames)
+        opts["zlabels"] = [f"lab{k}" for k in range(nser)]
     if case["c"] is None:
         r = rng.random()
         if r < 0.4 and (has_z or multi or rng.random() < 0.5):
